@@ -157,3 +157,48 @@ Print Assumptions C10_gen_stack_pop_guard_eq_model.
 Print Assumptions C10_gen_stack_truncate_size_eq_model.
 Print Assumptions C10_gen_stack_guard_cfgs.
 (* ================================================ end of the R2G block ================================= *)
+
+(* ======================================================================================================== *)
+(* Arithmetic that is overflow-checked in a dev build and wrapping in a release build (theories/ArithNoFault.v).
+   (a) the hashing code outside the r2g subset (closures): the regenerated operator table must show NO checked
+       operator (+ - * / % << >>) in `impl Hash for Value`, `impl Hash for Gc<ObjTuple>`, `impl Hash for Gc<ObjString>`
+       and PassThroughHasher, the tuple combiner must be the total `a ^ b`, and the set of Hash/Hasher impls must be the
+       known one (a new hashable kind has to be looked at);
+   (b) for the functions regenerated by the r2g translator: the fault branch (the dev panic) is unreachable for all
+       inputs. *)
+From YVGen Require HashArith PureNum PureIntern PureIndex.
+From YV Require R2G Index ArithNoFault.
+Theorem C10_hash_no_checked_arith :
+  map (fun r => (fst (fst r), snd (fst r))) YVGen.HashArith.hash_arith =
+    [("value.rs: impl Hash for Value", []); ("object.rs: impl Hash for Gc < ObjTuple >", []);
+     ("object.rs: impl Hash for Gc < ObjString >", []); ("hash.rs: impl Hasher for PassThroughHasher", []);
+     ("hash.rs: impl Default for PassThroughHasher", [])]%string.
+Proof. vm_compute; reflexivity. Qed.
+Theorem C10_hash_tuple_combiner_total :
+  map snd YVGen.HashArith.hash_arith = [[") ^ utils"; ") ^ utils"]; ["a ^ b"]; []; []; []]%string.
+Proof. vm_compute; reflexivity. Qed.
+Theorem C10_hash_impls_known :
+  YVGen.HashArith.hash_impls =
+    ["hash.rs: impl Hasher for FnvHasher"; "hash.rs: impl Hasher for PassThroughHasher";
+     "hash.rs: impl BuildHasher for BuildPassThroughHasher"; "object.rs: impl Hash for Gc < ObjString >";
+     "object.rs: impl Hash for Gc < ObjTuple >"; "value.rs: impl Hash for Value"]%string.
+Proof. vm_compute; reflexivity. Qed.
+Theorem C10_hash_number_total_u64 : forall x, (0 <= PureNum.hash_number x < 2 ^ 64)%Z.
+Proof. exact ArithNoFault.hash_number_total_u64. Qed.
+Theorem C10_fnv_write_no_fault : forall l h, (0 <= h < 2 ^ 64)%Z ->
+  exists v, PureIntern.FnvHasher_write h l = R2G.Val v.
+Proof. exact ArithNoFault.fnv_write_no_fault. Qed.
+Theorem C10_bounded_index_no_fault : forall x shown bound kind, (0 <= bound <= Index.isize_max)%Z ->
+  exists v, PureIndex.try_as_bounded_index (R2G.RNumber x) shown bound kind = R2G.Val v.
+Proof. exact ArithNoFault.bounded_index_no_fault. Qed.
+Theorem C10_bounded_range_no_fault : forall rb re limit kind,
+  Index.in_isize rb = true -> Index.in_isize re = true -> (0 <= limit <= Index.isize_max)%Z ->
+  exists v, PureIndex.make_bounded_range rb re limit kind = R2G.Val v.
+Proof. exact ArithNoFault.bounded_range_no_fault. Qed.
+Print Assumptions C10_hash_no_checked_arith.
+Print Assumptions C10_hash_tuple_combiner_total.
+Print Assumptions C10_hash_impls_known.
+Print Assumptions C10_hash_number_total_u64.
+Print Assumptions C10_fnv_write_no_fault.
+Print Assumptions C10_bounded_index_no_fault.
+Print Assumptions C10_bounded_range_no_fault.
